@@ -133,7 +133,7 @@ pub fn run_fault_case(case: &FaultCase, dir: &Path) -> CaseResult {
     rm_rf(&run_root);
     let dry = run_child(&case.work, &run_root, dir, None, &[("WL_NO_SWEEPS", "1")]);
     if dry.status != "ok" {
-        return done(stats, Some(fail("workload-died", format!("fault-free run did not finish: {}", dry.status), json!({}))), false);
+        return done(stats, Some(fail(died_class(&dry.status), format!("fault-free run did not finish: {}", dry.status), json!({}))), false);
     }
     let mut class = CLASSES[case.fault.class as usize % CLASSES.len()];
     let op = OPS[case.fault.op as usize % OPS.len()];
@@ -166,7 +166,7 @@ pub fn run_fault_case(case: &FaultCase, dir: &Path) -> CaseResult {
     let aux0 = json!({"fault": spec, "class": class, "op": op});
     if run.status != "ok" {
         // a panic or abort of the store under an I/O error
-        return done(stats, Some(fail("workload-died", format!("with fault {spec} the workload process did not finish: {}", run.status), aux0)), false);
+        return done(stats, Some(fail(died_class(&run.status), format!("with fault {spec} the workload process did not finish: {}", run.status), aux0)), false);
     }
     let trace = &run.trace;
     // the fault is classified by the file it actually hit
